@@ -562,6 +562,7 @@ class XInterp(Interp):
         self._recv = {}  # id(receiver expression) -> value, while the enclosing call is being evaluated
         self.derived = {}  # derived symbol -> symbols it is computed from
         self.celllens = {}  # length symbol -> Cell
+        self._in_handler = 0
         self.gfacts = Facts()  # facts that define symbols (ranges of loop variables, floors, random draws, cell lengths)
         self.maxlen_syms = {}
 
@@ -622,7 +623,9 @@ class XInterp(Interp):
     floor_facts = all_facts
 
     def record(self, kind, node, base, spec, value, st, frame, how="item"):
-        self.events.append(Event(kind, node, base, spec, value, st.loops, frame.func, how))
+        ev = Event(kind, node, base, spec, value, st.loops, frame.func, how)
+        ev.handler = self._in_handler > 0  # recorded while interpreting an ``except`` handler
+        self.events.append(ev)
 
     # ------------------------------------------------------------- statements
     def stmt(self, node, st, frame):
@@ -640,10 +643,13 @@ class XInterp(Interp):
                 hs = before.copy()
                 if h.name:
                     hs.env[h.name] = Opq("exception")
+                self._in_handler += 1
                 try:
                     self.block(h.body, hs, frame)
                 except Exception:
                     pass
+                finally:
+                    self._in_handler -= 1
             return out
         return Interp.stmt(self, node, st, frame)
 
@@ -1406,6 +1412,9 @@ class XInterp(Interp):
                 n = self.acc_len(args[0])
                 if n is not None:
                     return n
+            if isinstance(args[0], (Rows, Pieces, Cols)) or isinstance(args[0], CallV) and not args[0].loops:
+                # a sequence of unknown length: one symbol per sequence value
+                return Lin.sym("len(%r)" % (args[0],))
         if isinstance(call.func, ast.Attribute):
             recv = self.ev(call.func.value, st, frame)
             meth = call.func.attr
